@@ -206,6 +206,10 @@ class Reply(object):
     def message(self, value):
         if value:
             match = message_esc_pattern.match(value)
+            if match and self._code and self._code[0] not in ('2', '4', '5'):
+                # No enhanced status code exists for this class of reply, the
+                # getter would drop it: keep the text as it is.
+                match = None
             if match:
                 self._message = value[match.end(0):]
                 self.enhanced_status_code = match.group(1)
